@@ -17,6 +17,7 @@ import SF.Lemmas.Net
 import SF.Lemmas.Lagf
 import SF.Lemmas.Roof
 import SF.Lemmas.LagRsi
+import SF.Lemmas.Flex
 /-
   C15 — No panic: every constructed view accepts every finite in-domain stream.
 
@@ -180,6 +181,10 @@ theorem laguerreFilter_noPanic (g : α) : (lagfCore (α := α) g).NoPanic :=
 /-- RoofingFilter: the unchecked core never panics for any N; the constructor rejects N < 2 (`roofing_ctor`) -/
 theorem roofing_noPanic (N M' : Nat) (hM : 0 < M') : (roofCoreU (α := α) N M').NoPanic :=
   noPanic_of_outAfter _ _ (Roof.outAfter_eq N M' hM)
+theorem trendFlex_noPanic (N : Nat) (hN : 3 ≤ N) : (tflexCore (α := α) N).NoPanic :=
+  noPanic_of_outAfter _ _ (Flex.trendFlex_eq N hN)
+theorem reFlex_noPanic (N : Nat) (hN : 3 ≤ N) : (rflexCore (α := α) N).NoPanic :=
+  noPanic_of_outAfter _ _ (ReFlex.reFlex_eq N hN)
 end
 theorem net_noPanic (N : Nat) (hN : 0 < N) : (netCore (α := α) N).NoPanic :=
   noPanic_of_outAfter _ _ (Net.outAfter_eq N hN)
